@@ -15,6 +15,21 @@ KINDS = ["unknown_element", "unknown_empty", "unknown_aggregate_with_known_child
 def doc_for(K):
     """a valid instance of K with up to two list members and a sub-aggregate where possible"""
     args, kwargs = ofxgen.base_instance(K)
+    kwargs = dict(kwargs)
+    # children with a groom rename (YIELD, FROM) and up to two further optional children make the document less minimal
+    extra = ofxgen.renamed_attrs(K) + [a for a, c in K.spec_no_listaggregates.items() if a not in kwargs and isinstance(c, Types.Element)]
+    added = 0
+    for a in extra:
+        if a in kwargs or added >= 2:
+            continue
+        trial = dict(kwargs)
+        try:
+            trial[a] = ofxgen.value_for(K, a)
+            ofxgen.build(K, args, trial)
+            kwargs = trial
+            added += 1
+        except Exception:
+            pass
     la = ofxgen.list_attrs(K)
     members = list(args)
     if la and len(members) < 2:
@@ -57,7 +72,10 @@ def make_node(ctx, kind, suffix, enclosing_cls, host):
         node.text = ctx.str("text" + suffix, 1, [(0x21, 0x7E)])
     elif kind in ("unknown_aggregate_with_known_child", "vendor_aggregate"):
         if len(host):
-            node.append(copy.deepcopy(host[0]))      # otherwise-known content inside the unknown aggregate
+            # first child, last child and any child whose tag a groom() override renames (YIELD, FROM)
+            cand = sorted(set([0, len(host) - 1] + [i for i, ch in enumerate(host) if isinstance(ch.tag, str) and ch.tag in ("YIELD", "FROM")]))
+            k = cand[ctx.choice("inner" + suffix, list(range(len(cand))))]
+            node.append(copy.deepcopy(host[k]))      # otherwise-known content (any child of the host) inside the unknown aggregate
         else:
             ET.SubElement(node, "FOO").text = "1"
     return node
